@@ -8,6 +8,7 @@
 -/
 import Sbdf.Lemmas.ReadsTM
 import Sbdf.Props.C04
+import Sbdf.Gen.Surface
 namespace Sbdf.C07
 open Spec
 
@@ -109,6 +110,15 @@ theorem discard_truncated (n : Int) (hn : 0 < n) (d : Array UInt8) (pos : Nat) (
   have h1 : ¬ n.toNat = 0 := by omega
   have h2 : ¬ pos + n.toNat ≤ d.size := by omega
   simp [P.bind, h1, h2]
+
+/-- From the regenerated symbol table: stream positioning happens in one place only — a single
+    object file references `fseek` (the one holding `sbdf_skip_bytes`, which falls back to reading),
+    and nothing references `ftell`, `rewind`, `fseeko`, `fsetpos`, `fgetpos` or `lseek`; so no skip
+    path can depend on a seekable stream behind the helper's back. -/
+theorem positioning_in_one_place :
+    (Gen.undefinedSyms.filter (fun p => p.2 = "fseek")).length ≤ 1 ∧
+    ∀ p ∈ Gen.undefinedSyms, p.2 ∉ ["ftell", "ftello", "rewind", "fseeko", "fsetpos", "fgetpos", "lseek", "lseek64"] := by
+  decide
 
 /-- instances: skip = read for value arrays and whole table slices on a stream that cannot seek -/
 example (va : VA) (h : va.Fits { pipe := true }) :
